@@ -68,6 +68,7 @@ for _cls, _file in (("LazyPRM", "src/ompl/geometric/planners/prm/src/LazyPRM.cpp
                          canaries=[dict(name="old_query_kept", where="body:setProblemDefinition", rx=r"prm_clearQuery\(\);", repl=";")]))
 UNITS += QP_UNITS
 
+_v = copy.deepcopy(C01.NG_UNIT); _v["name"] = "c03_inputstates_nextGoal_ptc"; UNITS.append(_v)
 ASSUMPTIONS = C01.ASSUMPTIONS + ["the termination condition returns an arbitrary value at every evaluation (so every interruption point is covered); executions that create fewer than 8 motions"]
 TRUSTED = C01.TRUSTED
 NOT_COVERED = ["every planner other than geometric::RRT (whole solve), control::PDST (flag logic of a resumed solve), EIT*'s approximate-solution update, PRM::setProblemDefinition/clearQuery and BundleSpaceGraph::clear (each solve()/clear() body would need its own contracts)",
